@@ -131,6 +131,21 @@ func c18Body(s *simkit.Sim, rc *simkit.RunCtx) {
 			}
 			// the path carries the identifier's segments, in order, and ends in did.json
 			p := r.Path
+			if c.kind == "encoded-slash-in-segment" {
+				// judged on the path as it goes over the wire: as many segments as the identifier has, each the same after decoding
+				wire := strings.Split(strings.TrimPrefix(u.EscapedPath(), "/"), "/")
+				okPath := len(wire) == len(c.segments)+1 && wire[len(wire)-1] == "did.json"
+				for i := 0; okPath && i < len(c.segments); i++ {
+					a, _ := url.PathUnescape(wire[i])
+					b, _ := url.PathUnescape(c.segments[i])
+					okPath = a == b
+				}
+				if !okPath {
+					s.Fail("C18.origin", "path:encoded-slash-in-segment", "resolving %s requested path %s: the identifier has %d path segments, an encoded slash inside a segment became a path separator", c.didStr, u.EscapedPath(), len(c.segments))
+					return false
+				}
+				continue
+			}
 			if c.kind == "dot-segments" {
 				if want := "/" + strings.Join(c.segments, "/") + "/did.json"; p != want {
 					s.Fail("C18.origin", "path:dot-segments", "resolving %s requested path %s, the identifier encodes %s", c.didStr, p, want)
@@ -165,7 +180,7 @@ func c18Body(s *simkit.Sim, rc *simkit.RunCtx) {
 
 	// ---- generated identifiers ----
 	ncases := 3 + s.D.Decide("cases", 5)
-	shapes := []string{"domain", "domain", "domain-port", "domain-path", "domain-port-path", "mixed-case", "encoded-segment", "dot-segments", "dot-segments",
+	shapes := []string{"domain", "domain", "domain-port", "domain-path", "domain-port-path", "mixed-case", "encoded-segment", "encoded-slash-in-segment", "dot-segments", "dot-segments",
 		"ipv4", "ipv6", "ipv4-port", "ipv6-port", "user-info", "user-info-port", "encoded-slash-in-host", "encoded-query-in-host", "encoded-fragment-in-host"}
 	servers := []string{"correct", "correct", "other-id", "redirect-other-host", "redirect-http", "redirect-same-host", "content-type-html", "status-500", "not-found"}
 	for ci := 0; ci < ncases && !s.Failed(); ci++ {
@@ -186,6 +201,9 @@ func c18Body(s *simkit.Sim, rc *simkit.RunCtx) {
 			domain = "Remote" + fmt.Sprint(s.D.Decide("domain", 5)) + ".SIM"
 		case "encoded-segment":
 			segs = []string{"alice%2Band%2Bbob", "p"}
+		case "encoded-slash-in-segment":
+			// one segment that contains an encoded slash: it stays one segment (another identifier names the path with a real slash)
+			segs = [][]string{{"x", "y%2Fz"}, {"tenants%2Fadmin"}, {"a", "b%2F..%2Fc", "d"}}[s.D.Decide("encoded-slash", 3)]
 		case "dot-segments":
 			// "." and ".." are path segments like any other: refused, or requested as they are - never collapsed into another path
 			segs = [][]string{{"users", "..", "admin"}, {".", "x"}, {"tenants", "x", "..", "..", ".."}, {"a", ".", "b"}, {".."}}[s.D.Decide("dots", 5)]
